@@ -2,6 +2,7 @@
 CONSTANTS
   UnsupportedRule = "pass"
   HeadRule = "pass"
+  StatusRule = "pass"
   CtRule = "caseinsensitive"
   ParseRule = "noscripting"
   CspRule = "policylist"
